@@ -1823,6 +1823,10 @@ class SpaceUpdater(SharedSpaceOperations):
         if node not in self.manager._graph:
             raise ValueError("Space '%s' not found" % node)
 
+        if not space.parent.is_model():
+            # ItemSpaces hold copies of the child spaces
+            space.parent.clear_subs_rootitems()
+
         # Remove node and its child tree
         nodes_removed = list()
         for child in self._graph.visit_tree(node):
